@@ -7,11 +7,11 @@ export CARGO_NET_OFFLINE=true
 cd $w || exit 2
 git checkout -q -- . ; rm -rf tests
 git apply $o/patch$k.diff || { echo "APPLY-FAILED"; exit 2; }
-suite=$(cargo test --offline 2>&1 | grep -E "^test result" | head -2 | tr '\n' ' ')
+suite=$(cargo test --offline 2>&1 | grep -E "^test result:" | head -2 | tr '\n' ' ')
 mkdir -p tests; cp $o/demo$k.rs tests/demo.rs
-with=$(cargo test --offline --test demo 2>&1 | grep -E "^test result|^error" | head -1)
+with=$(cargo test --offline --test demo 2>&1 | grep -E "^test result:|^error" | head -1)
 git checkout -q -- .
-without=$(cargo test --offline --test demo 2>&1 | grep -E "^test result|^error" | head -1)
+without=$(cargo test --offline --test demo 2>&1 | grep -E "^test result:|^error" | head -1)
 rm -rf tests
 echo "suite-with-change: $suite"
 echo "demo-with-change : $with"
